@@ -872,6 +872,27 @@ class Engine:
         def call(eng, st, args, kwargs):
             if len(args) != len(params):
                 raise SpecError(f'spec function {name}: arity')
+            from .contracts import OPAQUE_DEFS
+            if name in OPAQUE_DEFS and all(a.term is not None and a.meta is None for a in args):
+                kinds = tuple(a.kind for a in args)
+                ck = ('opaque', name, tuple(repr(k) for k in kinds))
+                if ck not in self.uf_cache:
+                    f = z3.Function(f'p_{name}', *[k.sort() for k in kinds], z3.BoolSort())
+                    self.uf_cache[ck] = f
+                    cs = [z3.Const(f'o_{name}_{i}', k.sort()) for i, k in enumerate(kinds)]
+                    s0 = State()
+                    s0.nxt = st.nxt
+                    s0.env = {p: V(k, c_) for p, k, c_ in zip(params, kinds, cs)}
+                    saved_b = self.binders
+                    self.binders = []
+                    self.spec_mode += 1
+                    try:
+                        body = self.truth(self.eval(node, s0))
+                    finally:
+                        self.spec_mode -= 1
+                        self.binders = saved_b
+                    self.facts.append(z3.ForAll(cs, f(*cs) == body, patterns=[f(*cs)]))
+                return BoolV(self.uf_cache[ck](*[a.term for a in args]))
             s = st.copy()
             s.env = dict(zip(params, args))
             self.spec_mode += 1
@@ -1197,14 +1218,16 @@ class Engine:
             for node in (ast.walk(root) if root is not None else []):
                 pass
             if root is not None:
-                fors = [n_ for n_ in ast.walk(root) if isinstance(n_, ast.For)]
+                # (dict comprehensions with one generator count as loops too: they can be executed as loops)
+                fors = [n_ for n_ in ast.walk(root)
+                        if isinstance(n_, ast.For) or (isinstance(n_, ast.DictComp) and len(n_.generators) == 1)]
                 fors.sort(key=lambda n_: (n_.lineno, n_.col_offset))
                 for n_ in fors:
-                    t = ast.unparse(n_.iter)
+                    t = ast.unparse(n_.iter if isinstance(n_, ast.For) else n_.generators[0].iter)
                     idx[id(n_)] = counts.get(t, 0)
                     counts[t] = counts.get(t, 0) + 1
             fr.__dict__['loop_index'] = idx
-        k = idx.get(id(s), 0)
+        k = idx.get(getattr(s, '_origin_id', id(s)), 0)
         loops = fr.contract.loops
         for key in (f'iter:{text}#{k}', f'iter:{text}'):
             if key in loops:
@@ -1232,6 +1255,15 @@ class Engine:
 
             def visit_Lambda(s, n):
                 pass
+
+            def _comp(s, n):
+                # comprehension variables are local to the comprehension (Python 3): not assignments of the block
+                before = set(names)
+                s.generic_visit(n)
+                tgt = {x.id for g in n.generators for x in ast.walk(g.target) if isinstance(x, ast.Name)}
+                names.difference_update(tgt - before)
+
+            visit_ListComp = visit_SetComp = visit_DictComp = visit_GeneratorExp = _comp
 
             def visit_AugAssign(s, n):
                 t = n.target
@@ -1399,7 +1431,9 @@ class Engine:
         fr.loop_prefix, fr.loop_counter = lid + '.', 0
         kinds = {}
         try:
-            self.assign(s.target, at(z3.Int(fresh_name('kdry'))), dry)
+            kd_ = z3.Int(fresh_name('kdry'))
+            self.assign(s.target, at(kd_), dry)
+            dry.env[idx_name] = IntV(kd_)       # nested loop contracts may mention the enclosing loop's index
             self.exec_block(s.body, dry)
             for cs in fr.continues:
                 dry.assign_from(self.merge_states(cs.path, cs, dry))
@@ -2188,18 +2222,30 @@ class Engine:
         #     __compN = {}; for target in iterable: __compN[k] = v
         # (needed when v has effects -- e.g. a method call that awaits futures -- or the target is a tuple)
         fr = self.frames[-1]
-        if (len(e.generators) == 1 and not e.generators[0].ifs and fr.contract is not None
-                and any(kk.startswith('iter:' + ast.unparse(e.generators[0].iter)) for kk in fr.contract.loops)):
+        probe = ast.For(target=e.generators[0].target, iter=e.generators[0].iter, body=[], orelse=[]) if len(e.generators) == 1 else None
+        if probe is not None:
+            probe._origin_id = id(e)
+        if (probe is not None and not e.generators[0].ifs and fr.contract is not None
+                and any(kk.startswith('iter:') for kk in fr.contract.loops)
+                and self.find_loop_spec(fr, probe, '?') is not None):
             n_ = fr.__dict__.setdefault('comp_counter', 0)
             fr.__dict__['comp_counter'] = n_ + 1
-            tmp = f'__comp{n_}'
+            tmp = f'__comp{n_}'         # (numbered in execution order within the function)
             self.assign(ast.Name(id=tmp, ctx=ast.Store()), V(KDict(KStr, KDyn), None, meta='emptydict'), st)
             g = e.generators[0]
             body = ast.Assign(targets=[ast.Subscript(value=ast.Name(id=tmp, ctx=ast.Load()), slice=e.key, ctx=ast.Store())],
                               value=e.value, lineno=e.lineno, col_offset=0)
             loop = ast.For(target=g.target, iter=g.iter, body=[body], orelse=[], lineno=e.lineno, col_offset=0)
             ast.fix_missing_locations(loop)
+            loop._origin_id = id(e)
+            tnames = [x.id for x in ast.walk(g.target) if isinstance(x, ast.Name)]
+            saved_t = {n_: st.env.get(n_) for n_ in tnames}
             self.stmt_For(loop, st)
+            for n_, v_ in saved_t.items():       # comprehension variables do not leak (Python 3)
+                if v_ is None:
+                    st.env.pop(n_, None)
+                else:
+                    st.env[n_] = v_
             return st.env.pop(tmp)
         return self.B.comprehension(self, st, e, 'dict')
 
